@@ -98,7 +98,12 @@ class CoreGen:
                 return [("push", r.randrange(4)), op]
             if k < 0.8:
                 return [("push", r.choice(CONST))]
-            if k < 0.88:
+            if k < 0.84:
+                # a digest: Keccak of a memory range (empty, one byte, a word, two words, an unaligned size); the range
+                # holds whatever was stored before — literals (a concrete digest) or calldata words (f_sha3_N(…))
+                self.count("sha3")
+                return [("push", r.choice([0, 1, 32, 64, 33])), ("push", r.choice([0, 0, 32, 5, 0x100])), "SHA3"]
+            if k < 0.9:
                 # balances: of this account, of a literal account, of the (symbolic) caller
                 self.count("bal:read")
                 return r.choice([["SELFBALANCE"], [("push", r.choice([0x1000, 0x2000, 0x3000, 0x4000, 5])), "BALANCE"],
@@ -136,13 +141,22 @@ class CoreGen:
                  else ["pop", "mstore", "copy", "sstore", "dupswap"])
         if self.callee:
             kinds = [k for k in kinds if k != "loop"]
-        kinds += ["log", "log", "ext", "ext", "ext"]
+        kinds += ["log", "log", "ext", "ext", "ext", "sha", "sha"]
         if self.targets:
             kinds += ["call", "call", "call"] if d > 0 else ["call"]
         k = r.choice(kinds)
         self.count("stmt:" + k)
         if k == "call":
             return self.call_site()
+        if k == "sha":
+            # a digest of data that is partly symbolic (a calldata word stored just before) or concrete, written where
+            # the final RETURN shows it
+            self.count("sha3:stmt")
+            self.count("mem:MSTORE")
+            off = r.choice([0, 32, 0x100])
+            pre = (self.arg() if r.random() < 0.7 else [("push", r.choice(CONST))]) + [("push", off), "MSTORE"]
+            return pre + [("push", r.choice([0, 1, 32, 64, 33])), ("push", off), "SHA3",
+                          ("push", r.choice([0, 32, 64, 96])), "MSTORE"]
         if k == "log":
             return self.log_stmt()
         if k == "ext":
@@ -291,6 +305,62 @@ class CoreGen:
         self.count("mem:MSTORE")
         return out
 
+    # constructors (init codes) for CREATE: at most 32 bytes, written by one MSTORE
+    _RUNTIME = bytes.fromhex("336000523060205260406000f3")         # returns (msg.sender, address(this))
+    INITS = {
+        "runtime": bytes([0x6C]) + _RUNTIME + bytes.fromhex("600052600d6013f3"),   # deploys _RUNTIME
+        "revert": bytes.fromhex("3360005260206000fd"),                # reverts with msg.sender
+        # sstore(1, value), sstore(2, this), sstore(3, calldatasize + 1); empty code
+        "store": bytes.fromhex("3460015530600255" "3660010160035560006000f3"),
+        "probe": bytes.fromhex("3660005238602052" "60406000fd"),      # reverts with (calldatasize, codesize)
+        "log": bytes.fromhex("33600060" "00a1" "60016000f3"),         # log1 by the new account; code = one zero byte
+        "invalid": bytes([0xFE]),
+        "empty": b"",
+        # (init code with symbolic bytes: the model is stuck at the CREATE, the code inside the constructor frame, after
+        # the value transfer — outside the core, not generated)
+    }
+
+    def create_site(self):
+        """a CREATE: the init code in the scratch area, the new address (or 0) stored where the final RETURN shows it,
+        sometimes RETURNDATASIZE / EXTCODESIZE of the new account and a call into it"""
+        r = self.rng
+        kind = r.choice(["runtime", "runtime", "runtime", "revert", "store", "store", "probe", "log", "invalid",
+                         "empty"])
+        self.count("create:" + kind)
+        out = []
+        init = self.INITS[kind]
+        size = len(init)
+        if init:
+            out += [("push", int.from_bytes(init.ljust(32, b"\0"), "big")), ("push", 0x100), "MSTORE"]
+        if self.callee or r.random() < 0.6:
+            out += [("push", size), ("push", 0x100), ("push", 0)]
+        else:
+            self.count("create:value")
+            out += [("push", size), ("push", 0x100)] + r.choice([[("push", 1)], [("push", 5)], [("push", 1 << 128)],
+                                                                 self.arg() + [("push", 0xFF), "AND"], ["CALLVALUE"]])
+        out += ["CREATE", "DUP1", ("push", r.choice([0x160, 0x180, 64])), "MSTORE"]
+        k = r.random()
+        if k < 0.3:
+            out += ["RETURNDATASIZE", ("push", r.choice([32, 96])), "MSTORE"]
+        elif k < 0.5:
+            out += [("push", 32), ("push", 0), ("push", r.choice([0, 0x120])), "RETURNDATACOPY"]
+        if r.random() < 0.3:
+            out += ["DUP1", "EXTCODESIZE", ("push", r.choice([0, 0x140])), "MSTORE"]
+        if r.random() < 0.6:
+            # a call into the new account (address on the stack; 0 after a failed creation: an account without code)
+            op = r.choice(["CALL", "CALL", "STATICCALL", "DELEGATECALL"])
+            self.count("create:then-" + op)
+            roff, rsize = r.choice([0, 32, 0x120]), r.choice([0, 32, 64, 64])
+            out += [("push", rsize), ("push", roff), ("push", 0), ("push", 0)]
+            if op == "CALL":
+                out += [("push", 0), "DUP6"]
+            else:
+                out += ["DUP5"]
+            out += [("push", 0xFFFF), op, ("push", r.choice([96, 0x180])), "MSTORE"]
+        out += ["POP"]
+        self.count("mem:MSTORE")
+        return out
+
     def callee_program(self):
         """a small callee: a few statements, maybe a branch on its calldata, then return / revert / invalid / stop"""
         r = self.rng
@@ -327,6 +397,8 @@ class CoreGen:
             self.count("callee:prelude")
         if self.targets and r.random() < 0.6:
             items += self.call_site()           # a nested call (the static flag must be inherited through it)
+        if r.random() < 0.12:
+            items += self.create_site()         # a CREATE inside a callee: rolled back with it, the counter is not
         for _ in range(r.randrange(0, 3)):
             items += self.stmt(1)
         k = r.random()
@@ -382,6 +454,8 @@ class CoreGen:
             for _ in range(self.rng.randrange(1, 5)):
                 if self.rng.random() < 0.5:
                     items += self.stmt(1)
+                if self.rng.random() < 0.2:
+                    items += self.create_site()
                 if self.rng.random() < 0.25:
                     # a call inside a loop: the caller's visit counters must survive the callee (which starts with none)
                     self.count("call:in-loop")
@@ -394,6 +468,11 @@ class CoreGen:
             return items + self.end()
         for _ in range(self.rng.randrange(1, 5)):
             items += self.stmt(2)
+            if self.rng.random() < 0.15:
+                items += self.create_site()
+        if any(k.startswith("create:") for k in self.hist):
+            self.count("mem:RETURN-all")
+            return items + [("push", 0x1a0), ("push", 0), self.rng.choice(["RETURN", "RETURN", "REVERT"])]
         if self.rng.random() < 0.4:
             skip = self.fresh()
             items += self.cond() + [("ref", skip), "JUMPI"] + self.end() + [("label", skip)]
@@ -520,20 +599,33 @@ def _logs(pe, ex):
 
 
 BAL_ACCOUNTS = [0x1000, 0x2000, 0x3000, 0x4000, 5]
+NEW_ACCOUNTS = [0xaaaa0002, 0xaaaa0003, 0xaaaa0004]     # the first addresses CREATE hands out
 
 
 def _balances(pe, ex):
     """the non-zero balances of the scenario's accounts at the end of the path: `B<addr>=<value>;`"""
     import z3
     out = []
-    for a in BAL_ACCOUNTS:
+    for a in BAL_ACCOUNTS + NEW_ACCOUNTS:
         v = int(pe.ev(z3.Select(ex.balance, z3.BitVecVal(a, 160))))
         if v:
             out.append(f"B{a:x}={v:x};")
     return "".join(out)
 
 
-def impl_eval(sr, inputs):
+def _created(pe, ex, initial):
+    """the accounts the path created (those of `ex.code` not in the scenario), by address: `C<addr>=<code hex>;`"""
+    out = {}
+    for addr, c in ex.code.items():
+        a = addr.as_long() if hasattr(addr, "as_long") else int(addr)
+        if a in initial:
+            continue
+        code = c._code if hasattr(c, "_code") else c
+        out[a] = (pe.bytes_of(code) or b"") if len(code) else b""
+    return "".join(f"C{a:x}={out[a].hex()};" for a in sorted(out))
+
+
+def impl_eval(sr, inputs, initial=()):
     """the end states of the real run whose path conditions `inputs` satisfies, with their data evaluated (vlib.zeval)"""
     out = []
     for p in sr.paths:
@@ -541,7 +633,7 @@ def impl_eval(sr, inputs):
         if not pe.satisfies(p.conds):
             continue
         data = pe.bytes_of(p.data) if p.data is not None else b""
-        out.append(f"{_kind(p)}@{p.ex.pc}:{(data or b'').hex()}:{_storage(pe, p.ex)}{_logs(pe, p.ex)}{_balances(pe, p.ex)}")
+        out.append(f"{_kind(p)}@{p.ex.pc}:{(data or b'').hex()}:{_storage(pe, p.ex)}{_logs(pe, p.ex)}{_balances(pe, p.ex)}{_created(pe, p.ex, initial)}")
     return "sat=" + (",".join(sorted(out)) if out else "-")
 
 
@@ -670,7 +762,7 @@ def compare_core(ctx, n):
         # same exploration: now the data of the paths each concrete input takes
         for x, mrep in zip(ins, evals):
             try:
-                irep = _canon_eval(impl_eval(sr, x))
+                irep = _canon_eval(impl_eval(sr, x, {0x1000, *callees}))
             except D.Unknown as e:      # a symbol the harness cannot evaluate: not a core program any more
                 ctx.count("core:eval-unknown-symbol")
                 continue
